@@ -59,7 +59,9 @@ def charge_oracle(ctx, args, kwargs, result, exc, pre):
         return
     q = qe_vector(a['qe'], a['wave'], a['waveunit'])
     ref = np.tensordot(q, img, axes=(0, 0))
-    ctx.close('charge=sum', result, ref, 1e-12, 'charge|value', 'collected charge is not sum over wavelength of photons*qe',
+    # a spectrum QE is interpolated at unit-converted wavelengths: allow the rounding of those conversions
+    ctx.close('charge=sum', result, ref, 1e-9 if hasattr(a['qe'], '_wave') else 1e-12, 'charge|value',
+              'collected charge is not sum over wavelength of photons*qe',
               wit, scale=max(float(np.max(np.abs(ref))), 1e-300))
 
 
@@ -90,15 +92,16 @@ def bayer_oracle(ctx, args, kwargs, result, exc, pre):
     flat = chan['R'] + chan['G'] + chan['B']
     sc = max(float(np.max(np.abs(flat))), float(max(np.max(np.abs(e[c])) for c in 'RGB')), 1e-300)
     key = 'bayer|value|os>=3' if os_ >= 3 else 'bayer|value'
+    btol = 1e-9 if any(hasattr(a[n], '_wave') for n in ('qe_red', 'qe_green', 'qe_blue')) else 1e-12
     if a['flatten']:
-        ctx.close('bayer=pattern', result, flat, 1e-12, key,
+        ctx.close('bayer=pattern', result, flat, btol, key,
                   'a sub-pixel did not get the efficiency of the colour the tiled pattern assigns to its native pixel', wit, scale=sc)
     else:
         ok = isinstance(result, tuple) and len(result) == 3
         ctx.check(ok, 'bayer=pattern', 'bayer|channels|form', 'flatten=False did not return (R, G, B)', wit)
         if ok:
             for c, r in zip('RGB', result):
-                ctx.close('bayer=pattern', r, chan[c], 1e-12, key + f'|{c}',
+                ctx.close('bayer=pattern', r, chan[c], btol, key + f'|{c}',
                           'a colour channel image is not the photons*qe of that colour on its own pixels', wit, scale=sc)
 
 
